@@ -222,6 +222,18 @@ def _register_inline_functions(repo) -> None:
         if f.node.args.vararg or f.node.args.kwarg:
             continue
         seen.setdefault(f.name, []).append(f.node)
+    # module-level numeric constants with a unique name (`_INDIRECT_COST_FACTOR = 1.05`): the algebra reads the name as the number
+    from .srcmodel import const_value as _cv
+    consts = {}
+    mods = {f.module.rel: f.module for f in repo.all_functions()}
+    for mi in mods.values():
+        for st in mi.tree.body:
+            if isinstance(st, _ast.Assign) and len(st.targets) == 1 and isinstance(st.targets[0], _ast.Name):
+                okc, val = _cv(st.value)
+                if okc and isinstance(val, (int, float)) and not isinstance(val, bool):
+                    consts.setdefault(st.targets[0].id, []).append(val)
+    algebra.MODULE_CONSTANTS.clear()
+    algebra.MODULE_CONSTANTS.update({k: v[0] for k, v in consts.items() if len(v) == 1 and (k.isupper() or k.startswith('_'))})
     algebra.INLINE_FUNCTIONS.clear()
     algebra.INLINE_FUNCTIONS.update({k: v[0] for k, v in seen.items() if len(v) == 1})
 
